@@ -463,3 +463,26 @@ mut("C09", "r4-load-fixed-offset", "formats/dsd/dsd.go",
 mut("C09", "r5-pooled-buffer", "formats/dsd/compression.go",
     "\tbuf := bytes.NewBuffer(nil)\n\tbuf.Write(packetFormat)", "\tbuf, _ := bufPool.Get().(*bytes.Buffer)\n\tbuf.Reset()\n\tdefer bufPool.Put(buf)\n\tbuf.Write(packetFormat)", "C09-R5|DumpAndCompress",
     extra=[{"file": "formats/dsd/compression.go", "old": "// DumpAndCompress stores the interface", "new": "var bufPool = sync.Pool{New: func() interface{} { return new(bytes.Buffer) }}\n\n// DumpAndCompress stores the interface"}, {"file": "formats/dsd/compression.go", "old": "\t\"errors\"\n", "new": "\t\"errors\"\n\t\"sync\"\n"}])
+
+# ---- C11 -------------------------------------------------------------------
+mut("C11", "r1-no-name-for-in", "database/query/operators.go",
+    "\t\t\"in\":         In,\n", "", "C11-R1|operator In / has a name", canary=True)
+mut("C11", "r1-complies-no-endswith", "database/query/condition-string.go",
+    "\tcase EndsWith:\n\t\treturn strings.HasSuffix(comp, c.value)\n", "", "C11-R1|operator EndsWith / complies arm")
+mut("C11", "r1-where-no-matches", "database/query/condition.go",
+    "\tcase Matches:\n\t\treturn newRegexCondition(key, operator, value)\n", "", "C11-R1|operator Matches / Where arm")
+mut("C11", "r1-where-float-to-int", "database/query/condition.go",
+    "\t\tFloatLessThanOrEqual:\n\t\treturn newFloatCondition(key, operator, value)", "\t\tFloatLessThanOrEqual:\n\t\treturn newIntCondition(key, operator, value)", "C11-R1|complies arm")
+mut("C11", "r2-not-no-progress", "database/query/parser.go",
+    "\t\tfirstSnippet, err := getSnippet()\n\t\tif err != nil {\n\t\t\treturn nil, err\n\t\t}\n\n\t\tif !expectingMore && rootCondition {", "\t\tif wrapInNot && !expectingMore {\n\t\t\tcontinue\n\t\t}\n\t\tfirstSnippet, err := getSnippet()\n\t\tif err != nil {\n\t\t\treturn nil, err\n\t\t}\n\n\t\tif !expectingMore && rootCondition {", "C11-R2|every loop iteration consumes")
+mut("C11", "r2-getsnippet-unguarded", "database/query/parser.go",
+    "\t\tif snippetsPos > len(snippets) {\n\t\t\treturn nil, fmt.Errorf(\"unexpected end at position %d\", len(query))\n\t\t}\n", "", "C11-R2|snippets[pos-1]")
+mut("C11", "r2-offset-not-terminator", "database/query/parser.go",
+    "\t\t\tcase \"orderby\", \"limit\", \"offset\":", "\t\t\tcase \"orderby\", \"limit\":", "C11-R2|clause keywords terminate")
+mut("C11", "r2-conditions0-unguarded", "database/query/parser.go",
+    "\t\tcase \")\":\n\t\t\tif len(conditions) == 1 {\n\t\t\t\treturn conditions[0], nil\n\t\t\t}", "\t\tcase \")\":\n\t\t\tif !isOr && !typeSet {\n\t\t\t\treturn conditions[0], nil\n\t\t\t}", "C11-R2|conditions[0]")
+mut("C11", "r2-escape-after-quotes", "database/query/parser.go",
+    "\t\tif char == '\\\\' {\n\t\t\tskip = true\n\t\t}\n\n\t\t// wait for parenthesis to be overs\n\t\tif inParenthesis {\n\t\t\tif char == '\"' {\n\t\t\t\tsnippets = append(snippets, &snippet{\n\t\t\t\t\ttext:           prepToken(text[start+1 : pos]),\n\t\t\t\t\tglobalPosition: start + 1,\n\t\t\t\t})\n\t\t\t\tstart = -1\n\t\t\t\tinParenthesis = false\n\t\t\t}\n\t\t\tcontinue\n\t\t}\n",
+    "\t\t// wait for parenthesis to be overs\n\t\tif inParenthesis {\n\t\t\tif char == '\"' {\n\t\t\t\tsnippets = append(snippets, &snippet{\n\t\t\t\t\ttext:           prepToken(text[start+1 : pos]),\n\t\t\t\t\tglobalPosition: start + 1,\n\t\t\t\t})\n\t\t\t\tstart = -1\n\t\t\t\tinParenthesis = false\n\t\t\t}\n\t\t\tcontinue\n\t\t}\n\n\t\tif char == '\\\\' {\n\t\t\tskip = true\n\t\t}\n", "C11-R2|escape handling before quote handling")
+mut("C11", "r3-last-token-pos-plus-one", "database/query/parser.go",
+    "\t\t\ttext:           prepToken(text[start:]),", "\t\t\ttext:           prepToken(text[start : pos+1]),", "C11-R3|text[..:pos+1]", comment="reverts fix 8bbd7a4")
